@@ -115,8 +115,8 @@ CHECKS["C08"] = dict(
 CHECKS["C13"] = dict(
     engine="seq",
     category="exploration",
-    technique="exhaustive enumeration of packet-size vectors x maxPayload through the real client batcher; full limit x size x framing matrices against real servers (ServeHTTP with a counting body, real loopback HTTP and WebSocket) and the real WebTransport read loop",
-    text="Batcher: every vector of 1..5(6) packets with sizes {0,1,2,3,4,6,9} (text/binary in the first two positions) x every maxPayload 0..size+8 through the real clientSocket.Send with a recording polling transport: batches concatenate to the input and every multi-packet batch fits maxPayload. Polling inbound: limit {16, 1000, default, disabled} x body sizes around the limit and around 32/64 KiB x {Content-Length, chunked, under-declared}: over the limit => refused, not delivered, bytes read bounded, session closed; within => 200 and delivered. WebSocket both directions over real loopback with a barrier message; WebTransport read loop with limit x length x chunking patterns.",
+    technique="exhaustive enumeration of packet-size vectors x maxPayload through the real client batcher; full limit x size x framing matrices against real servers (ServeHTTP with a counting body, real loopback HTTP, WebSocket and WebTransport/HTTP3) and the real WebTransport handshake + read loop over a harness stream; end-to-end client bursts",
+    text="Batcher: every vector of 1..5(6) packets with sizes {0,1,2,3,4,6,9} (text/binary in the first two positions) x every maxPayload 0..size+8 through the real clientSocket.Send with a recording polling transport: batches concatenate to the input and every multi-packet batch fits maxPayload. Polling inbound: limit {16, 1000, default, disabled} x body sizes around the limit and around 32/64 KiB x {Content-Length, chunked, under-declared}: over the limit => refused, not delivered, bytes read bounded, session closed; within => 200 and delivered. WebSocket both directions over real loopback with a barrier message; WebTransport: the transport's real Handshake + read loop on a harness stream (limit x length x chunking patterns) and end to end over real HTTP/3 on loopback against the real eio.Server (limit configuration x lengths around it x text/binary). Client end to end: the real client against the real server over polling, bursts of 2..5 (thorough ..12) packets each within the announced limit but together beyond it, every POST measured at the HTTP round trip.",
     note="Plain build, real time for the loopback parts (verdicts wait for delivery/close with a deadline; foreign traffic on recycled ports is filtered by session id). Limits after a polling->websocket upgrade and binary polling bodies are not run.",
     design="3/C13")
 CHECKS["C14"] = dict(
